@@ -13,8 +13,8 @@ and how it is consumed:
     sub / side, guarded    bound to a name, followed by `try: async for ... in <name> ... finally: await
                            <name>.aclose()`  or  `async with aclosing(<name>): async for ...`
     sub / side, unguarded  iterated directly by an `async for` statement
-    collect                iterated by an async comprehension (no loop body that could raise or yield
-                           while the child is suspended)
+    collect                iterated by an async comprehension, or by an `async for` whose body is only `pass`
+                           (no loop body that could raise or yield while the child is suspended)
     anything else          reported as unguarded (fail-closed)
 
 kind is `side` for loop-filter functions (they yield elements to a loop body), `sub` otherwise.
@@ -140,6 +140,12 @@ def scan(src, filename):
                 site.update(kind="collect", guarded=True, how="async comprehension", line=comp.lineno, hi=comp.end_lineno)
                 break
             if isinstance(q, ast.AsyncFor) and p is q.iter:
+                if all(isinstance(b, ast.Pass) for b in q.body) and not q.orelse:
+                    # `async for _ in gen: pass` drives the generator to its end; like a comprehension the loop has no
+                    # body in which the consumer could fail or be suspended while the generator is
+                    site.update(kind="collect", guarded=True, how="async for with an empty body", line=q.lineno,
+                                hi=max(q.iter.end_lineno, q.lineno))
+                    break
                 site.update(how="iterated directly by async for", line=q.lineno, hi=max(q.iter.end_lineno, q.lineno))
                 break
             if isinstance(q, (ast.stmt,)):
